@@ -165,4 +165,50 @@ theorem stop_without_drain_counts_queue (c : Cfg) (hd : c.drain = false) (s s' :
   obtain ⟨rfl, rfl⟩ := h
   exact ⟨rfl, rfl⟩
 
+/-- **An in-flight batch is unaffected by later adds: the batch posted equals the batch taken.**
+    Let the loop goroutine `take` a non-empty batch `b` (= the front `maxBatch` alerts of the queue) in ANY
+    state `s0`. Then under EVERY schedule `tr` of the other actions that follows before its `result` — `add`s
+    that append to the queue, overflow it and drop its oldest alerts, `stop`, every step of the drain — the
+    loop goroutine still holds exactly `b`; the request that goes out is for `b` (`arrive b` is the only request
+    effect of the take), its `result v` is enabled, makes exactly `b`'s outcome observable (`rx b` at the
+    Alertmanager unless the transport failed; `sent` / `errors`+`dropped` += |b|) and appends exactly `b` to
+    what the Alertmanager received. The harness realises these schedules with its second gate
+    ("notifier.batchTaken": the goroutine parked between `nextBatch()` and the JSON encoding). -/
+theorem inflight_batch_unaffected (c : Cfg) (s0 s1 s2 : Loop) (e1 : List Eff) (tr : List Act) (v : Verdict)
+    (htake : step c s0 .take = some (s1, e1)) (hne : s0.queue.take c.maxBatch ≠ [])
+    (hrun : run c s1 tr = some s2) (hnores : ∀ v', Act.result v' ∉ tr) :
+    e1 = [.setQ (s0.queue.drop c.maxBatch).length, .arrive (s0.queue.take c.maxBatch)] ∧
+    s2.pc = .sending (s0.queue.take c.maxBatch) ∧
+    ∃ s3, step c s2 (.result v) = some (s3, outcomeEffs (s0.queue.take c.maxBatch) v) ∧
+      s3.received = s2.received ++ deliveredOf (s0.queue.take c.maxBatch) v := by
+  simp only [step] at htake
+  split at htake
+  · have hemp : (s0.queue.take c.maxBatch).isEmpty = false := by
+      cases h : s0.queue.take c.maxBatch with
+      | nil => exact absurd h hne
+      | cons _ _ => rfl
+    simp only [hemp, Bool.false_eq_true, if_false, Option.some.injEq, Prod.mk.injEq] at htake
+    obtain ⟨rfl, rfl⟩ := htake
+    have hpc := run_sending_stable c (s0.queue.take c.maxBatch) tr _ s2 rfl hnores hrun
+    refine ⟨rfl, hpc, ?_⟩
+    obtain ⟨h1, h2⟩ := outcome_effs s2 (s0.queue.take c.maxBatch) v
+    refine ⟨{ (s2.outcome (s0.queue.take c.maxBatch) v).1 with pc := .post }, ?_, h2⟩
+    simp [step, hpc, h1]
+  · simp at htake
+
+example : ∃ s, run ⟨3, 2, false⟩ {} [.add [1, 2], .wake, .take, .add [3], .add [4, 5, 6], .result .ok] = some s ∧
+    s.received = [1, 2] ∧ s.queue = [4, 5, 6] ∧ s.nOverflow = 1 ∧ s.nSent = 2 := ⟨_, rfl, by decide⟩
+
+/-- The same for a batch taken by the drain (`dtake` … `dresult`): nothing but its own `dresult` touches it. -/
+theorem drain_batch_unaffected (c : Cfg) (s1 s2 : Loop) (b : List Nat) (tr : List Act) (v : Verdict)
+    (hd : s1.dpc = .dsending b) (hrun : run c s1 tr = some s2) (hnores : ∀ v', Act.dresult v' ∉ tr) :
+    s2.dpc = .dsending b ∧
+    ∃ s3, step c s2 (.dresult v) = some (s3, outcomeEffs b v) ∧ s3.received = s2.received ++ deliveredOf b v := by
+  have hpc := run_dsending_stable c b tr s1 s2 hd hnores hrun
+  obtain ⟨h1, h2⟩ := outcome_effs s2 b v
+  exact ⟨hpc, { (s2.outcome b v).1 with dpc := .draining }, by simp [step, hpc, h1], h2⟩
+
+example : ∃ s, run ⟨4, 1, true⟩ {} [.add [1, 2], .wake, .take, .stop, .dtake, .result .fail, .post, .dresult .ok] = some s ∧
+    s.received = [1, 2] := ⟨_, rfl, by decide⟩
+
 end Prom.C46
